@@ -46,8 +46,11 @@ GroupsBy(fl, lens) ==
 
 OneToOne(fl) == [f \in 1..Len(fl) |-> <<fl[f]>>]
 
-GroupsOf(r) == IF r.ev = "helper" THEN GroupsBy(Lens(r.frags), Lens(r.frames)) ELSE OneToOne(Lens(r.frags))
-NFrames(r) == IF r.ev = "helper" THEN Len(r.frames) ELSE r.frames
+(* "assembled": a hand-assembled object, the attribution of fragments to frames (r.groups, *)
+(* fragment lengths per frame) and the exact offset table are part of the input           *)
+GroupsOf(r) == IF r.ev = "helper" THEN GroupsBy(Lens(r.frags), Lens(r.frames))
+               ELSE IF r.ev = "assembled" THEN r.groups ELSE OneToOne(Lens(r.frags))
+NFrames(r) == IF r.ev = "helper" THEN Len(r.frames) ELSE IF r.ev = "assembled" THEN Len(r.groups) ELSE r.frames
 
 GroupingOk(r) == LET g == GroupsOf(r) IN
                  /\ Len(g) = NFrames(r)
@@ -80,7 +83,12 @@ Checks(r) ==
                         BotMatchesWire(r.bot, g, [k \in 1..Len(r.wire.items) |-> r.wire.items[k][1]]),
       fpd      |-> /\ Len(r.fpd) = NFrames(r)
                    /\ gok => \A f \in 1..Len(r.fpd) :
-                               f <= Len(g) => (r.fpd[f].res = "ok" /\ r.fpd[f].data = GroupBytes(r, g, f))]
+                               f <= Len(g) => (r.fpd[f].res = "ok" /\ r.fpd[f].data = GroupBytes(r, g, f)),
+      (* the same retrieval on the object written to a file and read back *)
+      fpd_reread |-> r.ev = "assembled" =>
+                   /\ Len(r.fpd_reread) = NFrames(r)
+                   /\ gok => \A f \in 1..Len(r.fpd_reread) :
+                               f <= Len(g) => (r.fpd_reread[f].res = "ok" /\ r.fpd_reread[f].data = GroupBytes(r, g, f))]
 
 (* "helper_big": one frame of frame_len bytes holding B(i) = i % 251 + 1 at   *)
 (* 0-based position i; fragment lengths run-length coded as <<count, len>>;  *)
@@ -102,7 +110,7 @@ BigChecks(r) ==
 Why(r) == IF r.ev = "helper_big" THEN {k \in DOMAIN BigChecks(r) : ~BigChecks(r)[k]}
           ELSE {k \in DOMAIN Checks(r) : ~Checks(r)[k]}
 
-TCase == /\ l <= Len(Rec) /\ R.ev \in {"helper", "helper_big", "transcode"}
+TCase == /\ l <= Len(Rec) /\ R.ev \in {"helper", "helper_big", "transcode", "assembled"}
          /\ IF Why(R) = {} THEN TRUE ELSE PrintT(<<"FAILED", l, ToJson(Why(R))>>)
          /\ l' = l + 1
 
